@@ -599,11 +599,22 @@ func parsePacketPayload(payload string) (result []byte, err error) {
 	return
 }
 
+// asciiToLower folds the letters A-Z only: strings.ToLower also maps letters like
+// U+212A (Kelvin sign) and U+0130 to "k" and "i", which made "ac\u212a" pass for "ack"
+func asciiToLower(s string) string {
+	return strings.Map(func(r rune) rune {
+		if 'A' <= r && r <= 'Z' {
+			return r + ('a' - 'A')
+		}
+		return r
+	}, s)
+}
+
 func parseIPFlags(inputFlags string) (result uint8, err error) {
 	if len(inputFlags) == 0 {
 		return
 	}
-	flags := strings.Split(strings.ToLower(inputFlags), ",")
+	flags := strings.Split(asciiToLower(inputFlags), ",")
 	for _, flag := range flags {
 		switch flag {
 		case "df":
